@@ -5,6 +5,7 @@ import GqlVerif.Proofs.C14GeneratedWitness
 import GqlVerif.Proofs.C14GeneratedFragWitness
 import GqlVerif.Proofs.C01DenyFragWitness
 import GqlVerif.Proofs.CalcVariantsPushedClasses
+import GqlVerif.Proofs.ModuleOkInputsClasses
 open GqlVerif.C14
 #print axioms dep_table
 #print axioms never_omitted_unless_denied
@@ -82,3 +83,5 @@ open GqlVerif.C14
 #print axioms GqlVerif.Pushed.variantOp_decision
 #print axioms GqlVerif.Pushed.variantSpreadOp_decision
 #print axioms GqlVerif.Pushed.variantSpreadOp2_decision
+-- (P42)
+#print axioms GqlVerif.MOK.denied_field_payload_same_inputs
